@@ -326,7 +326,8 @@ class MinGenSet():
 
             if self.solver.get_model_status() == "kOptimal":
                 genset_sol = self.solver.get_values(self.genset_vars)
-                self._solution = sorted(self.weight_type(genset_sol[i]) for i in range(k))
+                # int() truncates: an integer variable reported as 2.9999999996 must become 3
+                self._solution = sorted((round(genset_sol[i]) if self.weight_type == int else float(genset_sol[i])) for i in range(k))
                 self._is_solved = True
                 self.solve_statistics = {
                     "solve_time": time.perf_counter() - start_time,
